@@ -9,7 +9,7 @@ import (
 )
 
 func TestVerifIrisMiddleware(t *testing.T) {
-	vRunDriver(t, vDriver{Name: "iris.SentinelMiddleware", DefaultRes: "GET:/ping/7", CustomRes: "custom-iris", HasFallback: true, CanPanic: true,
+	vRunDriver(t, vDriver{Name: "iris.SentinelMiddleware", DefaultRes: "GET:/ping/7", CustomRes: "custom-iris", HasFallback: true, CanPanic: true, HasVariant: true,
 		Run: func(r vReq, handler func() error) vOut {
 			var opts []Option
 			if r.Extractor {
@@ -20,17 +20,27 @@ func TestVerifIrisMiddleware(t *testing.T) {
 			}
 			app := iris.New()
 			app.Logger().SetLevel("disable")
+			if r.Variant {
+				// Forced execution rules: the next handler runs unless execution was stopped. (This iris version wraps a party's
+				// middleware in place once per registered route: on the first route a middleware's Next call is swallowed, on later
+				// routes StopExecution is lost, with any middleware. The route under test is the first one, where a rejection that
+				// stops execution keeps the request away from the handler.)
+				vHandlerAfterMiddleware = true
+				app.SetExecutionRules(iris.ExecutionRules{Begin: iris.ExecutionOptions{Force: true}, Main: iris.ExecutionOptions{Force: true}, Done: iris.ExecutionOptions{Force: true}})
+			}
 			panicked := false
 			var pv interface{}
-			app.Use(func(c iris.Context) {
-				defer func() {
-					if v := recover(); v != nil {
-						panicked, pv = true, v
-						c.StopWithStatus(http.StatusInternalServerError)
-					}
-				}()
-				c.Next()
-			})
+			if !r.Variant { // (a recovering middleware has to call Next itself, which forced rules swallow)
+				app.Use(func(c iris.Context) {
+					defer func() {
+						if v := recover(); v != nil {
+							panicked, pv = true, v
+							c.StopWithStatus(http.StatusInternalServerError)
+						}
+					}()
+					c.Next()
+				})
+			}
 			app.Use(SentinelMiddleware(opts...))
 			app.Get("/ping/{id}", func(c iris.Context) {
 				if err := handler(); err != nil {
